@@ -53,8 +53,11 @@ def configs(tier, seed=0):
     # every node lies in exactly one step, for ALL float64 end points (|x| <= 1024); decided by z3 || cvc5 on QF_FP
     fp = [(3, 2), (4, 2), (5, 2), (4, 3)] if tier == 'quick' else [(3, 2), (4, 2), (5, 2), (7, 2), (4, 3), (5, 3), (7, 3), (5, 4), (9, 4)]
     for N, n in fp:
+        # quick tier: 2 steps are proved (cvc5, 12-75 s unloaded; generous limit for a loaded machine); 3 steps only hunt for a model for 60 s
+        # (z3 finds the seeded rounding slip in ~25 s) and tolerate 'unknown' - the proof for 3 steps (cvc5 ~150 s) is in the thorough tier
+        hunt = tier == 'quick' and n >= 3
         out.append({'key': 'step-fp/N%d/s%d' % (N, n), 'geom': 'step-fp', 'N': N, 'steps': n, 'validate': 0,
-                    'z3_s': 30 if tier == 'quick' else 120, 'cvc5_s': 200 if tier == 'quick' else 1500, 'stretch': n >= 4})
+                    'z3_s': 60 if tier == 'quick' else 120, 'cvc5_s': (60 if hunt else 400) if tier == 'quick' else 1500, 'stretch': n >= 4 or hunt or (n == 3 and N >= 7)})
     return out
 
 
